@@ -2,10 +2,12 @@
 
 HARNESSES = {
     "codec": dict(src=["harness/h_codec.cpp"], flavour="asan"),
+    "hist": dict(src=["harness/h_hist.cpp"], flavour="asan"),
 }
 
 ENGINE_TEXT = {
     "codec": "rapidcheck + exhaustive choice-tree enumeration on CdnsEncoder/CdnsDecoder, ASan+UBSan",
+    "hist": "rapidcheck model-based API histories on CdnsExporter/CdnsBlock with reference exporter model and independent reader, ASan+UBSan",
 }
 NOT_APPLICABLE = {}
 
@@ -28,5 +30,76 @@ PROPS = {
             dict(harness="codec", prop="c06_vals", kind="enum", workers=4),
             dict(harness="codec", prop="c06_seq", cases=(4000, 80000), size=(30, 80)),
         ],
+    ),
+
+    "C01": dict(
+        rule="generated API histories (buffer_qr/aec/mm with all optional-member subsets, boundary integers, pools for repeated table values, "
+             "RR lists; 1..3 parameter sets with any hint masks / tick rates / block sizes; write_block and parameter switches interleaved; "
+             "none/gzip/xz, name/fd). Oracle: reference exporter model -> expected blocks; file read by the independent RFC 8618 reader AND by "
+             "CdnsReader+read_generic_*; all three must agree (records exact, AEC multiset, statistics per block). Non-trivial: >=2 records reached "
+             "the file and (non-default hints | tps != 1e6 | >1 set used | >=2 blocks | a value >= 2^16 or negative | an RR list). Distinct = hash of choice sequence.",
+        level_text="model-based random histories with shrinking; differential against an independent RFC 8618 interpretation and against the library reader",
+        level_note="trusts lib/cbor_ref.hpp + lib/cdns_ref.hpp (written from RFC 8949/8618, no library code) and the reference exporter model in harness/h_hist.cpp",
+        technique="property-based testing: stateful model-based histories (rapidcheck) with round-trip + independent-reader differential oracle",
+        assumptions=["timestamps normalised and below 2^63 ticks (property precondition)", "response question list governed by the query-question-sections hint bit (library documentation)",
+                     "statistics are not attached to calls that store nothing when max_block_items == 0 (excluded by construction, counted)"],
+        jobs=[
+            dict(harness="hist", prop="hist_c01", cases=(12000, 300000), size=(40, 120)),
+            dict(harness="hist", prop="hist_c01big", cases=(600, 20000), size=(40, 150)),
+        ],
+    ),
+    "C02": dict(
+        rule="generated API histories including write_block(external block built through CdnsBlock::add_*), rotate_output, add/set block parameters, "
+             "present-but-empty BlockStatistics / CollectionParameters / signature / RPD / QRE / MMD / index lists. Oracle per closed output: zero "
+             "uncompressed bytes iff the model wrote no block, else strict RFC 8949 parse to exact end + RFC 8618 schema validation (types, mandatory members, "
+             "every stored index in range, no duplicate keys). Non-trivial: output with >=1 block whose history has an empty optional structure | external block | "
+             "rotation | parameter switch | block > 2 KiB.",
+        level_text="model-based random histories with shrinking; every closed output validated by an independent strict CBOR parser + schema validator",
+        level_note="validator checks exactly the conditions listed in the property (no CDDL '+' cardinalities, no canonical order); trusts lib/cbor_ref.hpp, lib/cdns_ref.hpp",
+        technique="property-based testing: stateful histories (rapidcheck) + independent strict parser/validator as oracle",
+        assumptions=["ae-transport-flags treated as optional (the library API makes it optional)"],
+        jobs=[dict(harness="hist", prop="hist_c02", cases=(12000, 300000), size=(40, 120))],
+    ),
+    "C04": dict(
+        rule="records with ~7/8 of all optional members set x hint masks (all-ones, all-zero, exactly one bit cleared, exactly one bit set, random; several sets per file). "
+             "Oracle on the independent parse: no member whose hint bit is clear (Q/R item, signature, RR, AEC/MM arrays), every table entry reachable from a stored item, "
+             "preamble states the configured masks, and completeness via the C01 record comparison restricted to this profile. Non-trivial: mask != all-ones and >=1 record stored.",
+        level_text="generated records x structured hint masks; absence/reachability/completeness oracles on an independent parse",
+        level_note="bit<->member map transcribed from the RFC 8618 StorageHints tables; asn/country/rtt have no bit",
+        technique="property-based testing: generated configurations (single-bit sweeps + random masks) with invariant oracle on independent parse",
+        assumptions=["response question list governed by query-question-sections (library documentation)"],
+        jobs=[dict(harness="hist", prop="hist_c04", cases=(10000, 250000), size=(25, 60))],
+    ),
+    "C10": dict(
+        rule="C02 history generator (all compression modes, name/fd, rotations, external blocks, large strings). Oracle: per output, sum of the values returned by "
+             "buffer_*/write_block*/rotate_output since it was opened == uncompressed size (+1 closing byte when closed by destruction with >=1 block). "
+             "Non-trivial: >=1 block and (block > 2 KiB | rotation | compression | empty optional structure).",
+        level_text="model-free accounting identity checked over random histories; independent decompression",
+        level_note="encoder-level return values are decided by C06; this check covers exporter/serialisation sums",
+        technique="property-based testing: stateful histories (rapidcheck) with accounting invariant",
+        assumptions=[],
+        jobs=[dict(harness="hist", prop="hist_c10", cases=(8000, 200000), size=(40, 120))],
+    ),
+    "C12": dict(
+        rule="histories over buffer_qr(storable/unstorable)/buffer_aec(repeating keys)/buffer_mm/write_block/set_active/counter queries with max_block_items in {0,1,2,3,5} "
+             "and 2..3 parameter sets. Oracle after every step: return value non-zero <=> reference model flushed; four counters + active index equal the model; at the end the file "
+             "holds exactly the model's blocks (sizes, order, AEC counts), none empty, none above its maximum. Non-trivial: a flush caused by a buffer call with >=2 item kinds, or a "
+             "parameter switch followed by a flush.",
+        level_text="reference state machine (from the documentation) compared step by step over random histories",
+        level_note="max_block_items == 0 modelled as 1 (property statement); unstorable records on an empty max-0 block with a pending parameter switch are excluded by construction",
+        technique="property-based testing: stateful model-based testing (rapidcheck), invariant after every step",
+        assumptions=[],
+        jobs=[dict(harness="hist", prop="hist_c12", cases=(10000, 250000), size=(40, 200))],
+    ),
+    "C13": dict(
+        rule="rotation-rich histories (rotate_output name|fd with export in {0,1}, consecutive rotations, rotation after add+set parameters), all compression modes. Oracle: each closed output "
+             "snapshotted right after rotate_output returns (final name exists, no .part), empty or schema-valid with every block-parameters-index < sets of that file's preamble, byte-identical "
+             "at the end of the history; concatenated record stream over outputs == submitted stream (model). Non-trivial: rotation with blocks on the closed side | non-exporting rotation "
+             "with non-empty buffer | consecutive rotations.",
+        level_text="model-based random histories; per-output snapshot/validation and record-stream conservation",
+        level_note="records still buffered at destruction are by design not written (documented usage calls write_block first); the model accounts for them as buffered",
+        technique="property-based testing: stateful histories (rapidcheck) with snapshot + conservation oracle",
+        assumptions=[],
+        jobs=[dict(harness="hist", prop="hist_c13", cases=(8000, 200000), size=(40, 120))],
     ),
 }
